@@ -29,6 +29,8 @@ func main() {
 		usage()
 	}
 	switch os.Args[1] {
+	case "gen-policy":
+		os.Exit(genPolicy())
 	case "selftest":
 		os.Exit(selftest(true))
 	case "replay":
